@@ -163,7 +163,16 @@ def run_plan(rng, n, kinds, lo=17, hi=30):
         k = rng.choice([x for x in kinds if x != prev])
         out += [k] * rng.randrange(lo, hi + 1)
         prev = k
-    return out[:n]
+    out = out[:n]
+    data = [k for k in kinds if str(k).rstrip("r") in ("D", "N")]
+    if data and not any(k in data for k in out):
+        # at least one run of stored data in every plan
+        first = out[0]
+        j = 0
+        while j < len(out) and out[j] == first:
+            out[j] = data[0]
+            j += 1
+    return out
 
 
 def run_positions(plan, first=0, data=("D", "Dr")):
